@@ -438,7 +438,7 @@ func (c *Ctx) jcsRules() {
 				}
 				for _, e := range boolEdges(cl, true) {
 					for _, i2 := range e.to.Instrs {
-						if ib, isC := i2.(*ssa.Call); isC && ib.Call.StaticCallee() != nil && ib.Call.StaticCallee().String() == "(*container/list.List).InsertBefore" && ib.Call.Args[2] == cl.Call.Args[1] {
+						if ib, isC := i2.(*ssa.Call); isC && ib.Call.StaticCallee() != nil && ib.Call.StaticCallee().String() == "(*container/list.List).InsertBefore" && (ib.Call.Args[2] == cl.Call.Args[1] || backSlice(cl.Call.Args[1])[ib.Call.Args[2]]) {
 							okIns = true
 						}
 					}
@@ -461,13 +461,27 @@ func (c *Ctx) jcsRules() {
 			c.Check("C05.P3", "number-tokens-through-NumberToJSON", false, tr.Pos(), "no closure of Transform calls NumberToJSON")
 		} else {
 			ok := true
+			tokenLit := false
 			var rets []string
 			for _, r := range returnsOf(stp) {
 				p := c.Path(r.Results[0], nil)
 				rets = append(rets, p)
 				isLit := p == "global:internal/jsoncanonicalizer.literals[ι]"
 				isNum := strings.HasPrefix(p, "internal/jsoncanonicalizer.NumberToJSON(strconv.ParseFloat(") && strings.HasSuffix(p, ",64)#0)#0")
-				if !isLit && !isNum {
+				// or the token itself, handed back only where it was found in the literal table (slices.Contains etc.)
+				isTok := false
+				for _, t := range c.constSetTests(stp, nil, func(q string) bool { return q == p }) {
+					if !eqStrs(t.set, []string{"false", "null", "true"}) {
+						continue
+					}
+					for _, e := range t.member {
+						if e.via == nil && len(e.to.Preds) == 1 && e.to.Dominates(r.Block()) {
+							isTok = true
+							tokenLit = true
+						}
+					}
+				}
+				if !isLit && !isNum && !isTok {
 					ok = false
 				}
 			}
@@ -483,7 +497,7 @@ func (c *Ctx) jcsRules() {
 				}
 			})
 			sort.Strings(rets)
-			c.Check("C05.P3", "number-tokens-through-NumberToJSON", ok && okLit && len(rets) >= 2, stp.Pos(), fmt.Sprintf("a primitive token is emitted either as the matching literal or as NumberToJSON(ParseFloat(token)) — no textual pass-through: %v", rets))
+			c.Check("C05.P3", "number-tokens-through-NumberToJSON", ok && (okLit || tokenLit) && len(rets) >= 2, stp.Pos(), fmt.Sprintf("a primitive token is emitted either as the matching literal or as NumberToJSON(ParseFloat(token)) — no textual pass-through: %v", rets))
 		}
 	}
 	c.Min("C05.P3", 1)
